@@ -71,7 +71,10 @@ type Result struct {
 	Violations    []Violation       `json:"violations"`
 	KnownHits     map[string]int    `json:"known_findings_replayed"`
 	Extra         map[string]any    `json:"extra,omitempty"`
-	distinct      map[string]struct{}
+	// Dropped counts generated lines that were NOT evaluated (could not be dispatched to the code
+	// under test, outside an operation's domain, skipped after the hang budget), per class and reason.
+	Dropped  map[string]int `json:"dropped"`
+	distinct map[string]struct{}
 }
 
 // Out is the process's real stdout (os.Stdout is redirected to /dev/null to silence library prints).
@@ -88,14 +91,30 @@ type Ctx struct {
 	batch  []Case
 	Known  map[string]bool // ids of known findings for this property (from KNOWN_FINDINGS.txt)
 	Verbose bool
+	// Why is set by an Eval that returns nil to say why the line was not evaluated (read and reset by Drop).
+	Why string
 }
 
 func NewCtx(prop string, seed int64, tier, model, corpus string) *Ctx {
 	return &Ctx{Prop: prop, Seed: seed, Tier: tier, Rnd: rand.New(rand.NewSource(seed)), Model: model, Corpus: corpus,
 		Known: map[string]bool{},
 		Res: &Result{Property: prop, Seed: seed, Tier: tier, Classes: map[string]int{}, ImplKinds: map[string]int{},
-			KnownHits: map[string]int{}, Extra: map[string]any{}, distinct: map[string]struct{}{},
+			KnownHits: map[string]int{}, Extra: map[string]any{}, Dropped: map[string]int{}, distinct: map[string]struct{}{},
 			Samples: []string{}, Disagreements: []Disagreement{}, Violations: []Violation{}}}
+}
+
+// Drop records that a generated line of the given class was not evaluated (Eval returned nil or the
+// case was skipped); the reason is c.Why when the Eval left one.  The counts go into the evidence
+// (coverage.dropped), and ./check enforces per-class floors on what WAS evaluated (checks.json class_floors).
+func (c *Ctx) Drop(class, why string) {
+	if class == "corpus" && c.Why == "" {
+		return // corpus files are shared by the sub-runners of a property: a line of another runner is not a drop
+	}
+	if c.Why != "" {
+		why = c.Why
+		c.Why = ""
+	}
+	c.Res.Dropped[class+": "+why]++
 }
 
 func (c *Ctx) Thorough() bool { return c.Tier == "thorough" }
